@@ -68,7 +68,7 @@ def run_unit(u, tier):
                 for tid, ln in tw.marks.items():
                     if tid.startswith('TWIN:') and a <= ln <= b: hit.add(tid)
     ur.twin_points = list(tw.twin_points)
-    ur.twin_missing = [t for t in tw.twin_points if t not in hit]
+    ur.twin_missing = [t for t in tw.twin_points if t not in hit] if not ur.error else []
     if (not rt.have_results or tunsup) and not ur.error:
         ur.error = 'reachability twin could not be checked: ' + (tunsup[0].rendered[:400] if tunsup else rt.raw_err[:400])
     ur.twin_cmd = rt.cmd
